@@ -25,6 +25,6 @@ a, b = "<!-- seed-table:begin -->\n", "<!-- seed-table:end -->\n"
 if a in s:
     s = s[: s.index(a) + len(a)] + table + s[s.index(b):]
     open(p, "w").write(s)
-    print("table rewritten: %d seeds, %d missed" % (len(rows), sum("MISSED" in r for r in rows)))
+    print("table rewritten: %d seeds, %d missed" % (len(rows), sum(r.rstrip().endswith("**MISSED** |") for r in rows)))
 else:
     print(table)
